@@ -102,6 +102,36 @@ theorem C07_failed_payloads {φ} (keys : List TP) (results : List (List Nat × B
       (results.filter (fun r => match r.2 with | .fail _ => true | .ok _ => false)).flatMap (·.1) :=
   failedOf_idxs results
 
+/-- Accounting: if the payload keys are distinct, the requests partition the payload list and every
+    broker that answers, answers for exactly the partitions it was asked (`AnswersAsked`), then
+    responses ∪ failed payloads account for every payload exactly once: payload `i` is among the failed
+    payloads iff its key got no response, the failed payloads are listed without duplicates, and so are
+    the responses (one per answered payload, in payload order — `C07_order`). -/
+theorem C07_accounting {φ} (keys : List TP) (results : List (List Nat × BrokerResult φ))
+    (hkeys : keys.Nodup) (hnd : (results.flatMap (·.1)).Nodup)
+    (hcover : ∀ i, i < keys.length → i ∈ results.flatMap (·.1))
+    (hans : ∀ idxs rs, (idxs, BrokerResult.ok rs) ∈ results → AnswersAsked keys idxs rs) :
+    (∀ i (hi : i < keys.length),
+      (i ∈ (assemble keys results).2.map (·.1) ↔ ¬ (accOf results).any (fun r => r.key == keys[i]) = true)) ∧
+    ((assemble keys results).2.map (·.1)).Nodup ∧
+    ((assemble keys results).1.map (·.key)).Nodup := by
+  refine ⟨fun i hi => accounting keys results hkeys hnd hcover hans i hi, failed_nodup results hnd, ?_⟩
+  show ((responsesOf keys (accOf results)).map (·.key)).Nodup
+  rw [responsesOf_keys]
+  exact hkeys.sublist List.filter_sublist
+
+/-! Non-vacuity of `C07_accounting`: three payloads on two brokers, one broker fails. -/
+example : AnswersAsked [("t", 1), ("t", 0), ("u", 0)] [0, 2] [⟨("u", 0), 7, 0⟩, ⟨("t", 1), 8, 0⟩] := by
+  refine ⟨fun r hr => ?_, fun i hi k hk => ?_⟩
+  · simp only [List.mem_cons, List.mem_nil_iff, or_false] at hr
+    rcases hr with rfl | rfl
+    · exact ⟨2, by simp, rfl⟩
+    · exact ⟨0, by simp, rfl⟩
+  · simp only [List.mem_cons, List.mem_nil_iff, or_false] at hi
+    rcases hi with rfl | rfl
+    · simp at hk; exact ⟨⟨("t", 1), 8, 0⟩, by simp, hk⟩
+    · simp at hk; exact ⟨⟨("u", 0), 7, 0⟩, by simp, hk⟩
+
 /-- The connected-first ordering of a broker-agnostic request keeps every known broker exactly as
     often as the shuffled list had it, and never places an unconnected broker before a connected one. -/
 theorem C07_connected_first (st : St) (nodes : List Int) :
@@ -165,6 +195,7 @@ C07_one_request_per_broker
 C07_coordinator
 C07_order
 C07_failed_payloads
+C07_accounting
 C07_connected_first
 C07_normalize_hosts
 -/
